@@ -48,6 +48,7 @@ type SimSink struct {
 	Fired      *Probes
 	Mutated    int // calls during which the caller's buffer changed
 	AfterFault int // bytes appended after the first fault
+	MaxGrow    int // largest Grow request (GrowSink)
 }
 
 func NewSimSink(w *World, name string, p plan.SinkPlan) *SimSink {
@@ -140,6 +141,9 @@ type SimSource struct {
 	eofSeen       bool
 	ReadsAfterEOF int
 	FaultPos      int // Pos when the first error fault fired, -1 none
+	Seeks         int
+	SeekPastEnd   int
+	pastEnd       bool
 }
 
 func NewSimSource(w *World, name string, data []byte, src plan.Source, bounds []int) *SimSource {
@@ -248,4 +252,45 @@ func (s *SimSource) Read(p []byte) (int, error) {
 		return n, io.EOF
 	}
 	return n, nil
+}
+
+// SeekSource is a SimSource that also implements io.Seeker with the usual
+// semantics (seeking past the end is allowed; reads there return io.EOF).
+type SeekSource struct{ *SimSource }
+
+//go:norace
+func (s SeekSource) Seek(offset int64, whence int) (int64, error) {
+	var base int64
+	switch whence {
+	case io.SeekStart:
+	case io.SeekCurrent:
+		base = int64(s.Pos)
+	case io.SeekEnd:
+		base = int64(len(s.Data))
+	default:
+		return 0, errors.New("sim: invalid whence")
+	}
+	n := base + offset
+	if n < 0 {
+		return 0, errors.New("sim: negative position")
+	}
+	s.Seeks++
+	if n > int64(len(s.Data)) {
+		s.SeekPastEnd++
+		s.SimSource.Pos = len(s.Data)
+		s.SimSource.pastEnd = true
+		return n, nil
+	}
+	s.SimSource.Pos = int(n)
+	return n, nil
+}
+
+// GrowSink is a SimSink that also has a Grow method, like *bytes.Buffer.
+type GrowSink struct{ *SimSink }
+
+//go:norace
+func (g GrowSink) Grow(n int) {
+	if n > g.SimSink.MaxGrow {
+		g.SimSink.MaxGrow = n
+	}
 }
